@@ -493,8 +493,8 @@ func ruleOrderAfter(p *Prog, l *Ledger, tier string) {
 		avoid[o.Block()] = true
 	}
 	n := 0
-	for _, b := range fn.Blocks {
-		for _, ins := range b.Instrs {
+	for _, hb := range p.helperBlocks(fn) {
+		for _, ins := range hb.Instrs {
 			st, ok := ins.(*ssa.Store)
 			if !ok {
 				continue
@@ -502,6 +502,13 @@ func ruleOrderAfter(p *Prog, l *Ledger, tier string) {
 			if _, f := fieldOfAddr(st.Addr); f != "Items" {
 				continue
 			}
+			// where the insertion happens in Fragment itself (the call of the helper that holds it)
+			site := p.siteIn(fn, st)
+			if site == nil {
+				l.Undecide(rule, "Subtitles.Fragment", l.Key(rule, "Subtitles.Fragment", "insert", "helper"), p.Pos(st.Pos()), "the helper that stores into Items is called from several places in Fragment")
+				continue
+			}
+			b := site.Block()
 			n++
 			key := l.Key(rule, "Subtitles.Fragment", "insert", "")
 			if reachesReturnAvoiding(b, avoid) && !avoid[b] {
@@ -822,7 +829,7 @@ func markKind(mu *ssa.MapUpdate) string {
 	if !ok {
 		return ""
 	}
-	if b, ok := mt.Elem().Underlying().(*types.Basic); !ok || b.Kind() != types.Bool {
+	if !isSetElem(mt.Elem()) {
 		return ""
 	}
 	// key = <ptr>.ID
@@ -844,7 +851,7 @@ func markKind(mu *ssa.MapUpdate) string {
 		if nx, ok := ex.Tuple.(*ssa.Next); ok {
 			if r, ok := nx.Iter.(*ssa.Range); ok {
 				if m2, ok := r.X.Type().Underlying().(*types.Map); ok {
-					if b, ok := m2.Elem().Underlying().(*types.Basic); ok && b.Kind() == types.Bool {
+					if isSetElem(m2.Elem()) {
 						return "closure"
 					}
 				}
@@ -1315,6 +1322,34 @@ func builderJoin(f *ssa.Function, needSep bool) (bool, string) {
 	}
 	bld := ret.Call.Args[0]
 	loops := loopsOf(f)
+	// a helper that receives the builder and writes every element into it
+	passesTo := func(ins ssa.Instruction) *ssa.Function {
+		c, ok := ins.(*ssa.Call)
+		if !ok {
+			return nil
+		}
+		sc := c.Call.StaticCallee()
+		if sc == nil || len(sc.Blocks) == 0 || sc.Pkg == nil || sc.Pkg.Pkg.Path() != LibPath {
+			return nil
+		}
+		for k, a := range c.Call.Args {
+			if a == bld && k < len(sc.Params) && builderFilledBy(sc, sc.Params[k]) {
+				return sc
+			}
+		}
+		return nil
+	}
+	if len(loops) == 0 && !needSep {
+		// no loop of its own: the whole text is written by one such helper on the way to the return
+		for _, b := range f.Blocks {
+			for _, ins := range b.Instrs {
+				if h := passesTo(ins); h != nil && b.Dominates(ret.Block()) {
+					return true, "hands its strings.Builder to " + FnName(h) + ", which writes every element into it"
+				}
+			}
+		}
+		return false, ""
+	}
 	if len(loops) != 1 {
 		return false, ""
 	}
@@ -1330,6 +1365,13 @@ func builderJoin(f *ssa.Function, needSep bool) (bool, string) {
 	elem, sep := false, false
 	for b := range li.blocks {
 		for _, ins := range b.Instrs {
+			if h := passesTo(ins); h != nil {
+				if !domLatches(b) {
+					return false, ""
+				}
+				elem = true
+				continue
+			}
 			c, ok := isBuilderCall(ins, "WriteString")
 			if !ok || c.Call.Args[0] != bld {
 				continue
@@ -1362,4 +1404,51 @@ func builderJoin(f *ssa.Function, needSep bool) (bool, string) {
 		return true, "writes every element into a strings.Builder, with a constant separator before each but the first (decided by the loop counter)"
 	}
 	return true, "writes every element into a strings.Builder"
+}
+
+// builderFilledBy: h has one loop, and on every trip writes a non-constant string into the builder it
+// received as parameter bp (and writes nothing else into it).
+func builderFilledBy(h *ssa.Function, bp *ssa.Parameter) bool {
+	loops := loopsOf(h)
+	if len(loops) != 1 {
+		return false
+	}
+	li := loops[0]
+	ok := false
+	for _, b := range h.Blocks {
+		for _, ins := range b.Instrs {
+			c, isCall := ins.(*ssa.Call)
+			if !isCall {
+				continue
+			}
+			sc := c.Call.StaticCallee()
+			if sc == nil || sc.String() != "(*strings.Builder).WriteString" || c.Call.Args[0] != ssa.Value(bp) {
+				continue
+			}
+			if _, isC := constStr(c.Call.Args[1]); isC {
+				return false // a separator of its own: not analysed here
+			}
+			if !li.blocks[b] {
+				return false
+			}
+			for _, lt := range li.latch {
+				if !b.Dominates(lt) {
+					return false
+				}
+			}
+			ok = true
+		}
+	}
+	return ok
+}
+
+// isSetElem: the element type of a map used as a set: bool or struct{}.
+func isSetElem(t types.Type) bool {
+	if b, ok := t.Underlying().(*types.Basic); ok && b.Kind() == types.Bool {
+		return true
+	}
+	if st, ok := t.Underlying().(*types.Struct); ok && st.NumFields() == 0 {
+		return true
+	}
+	return false
 }
